@@ -461,11 +461,28 @@ EXTRA6 = {
            "started does not change who is admitted.",
     "C20": " Oracles added: a stream the upstream refuses must end; no stream outlives its connection.",
 }
+# additions of the seventh (partial) seeding round
+EXTRA7 = {
+    "C03": " The in-place overlap scenario allows one watermark-only batch at any point (before the reconnect too).",
+    "C08": " The broadcast script runs with a watermark that advances with every watermark-only batch and the settled oracle: the "
+           "incarnation that registered during the broadcast is owed that watermark.",
+    "C09": " Routing table: local state 'replaced' (a second stream registered its channels, then the first one's cleanup ran).",
+    "C10": " Real-time part outside the bubble: a connection whose Close blocks on a gate - the provider must not ask for a "
+           "replacement while the connection is open (4 cases); after the gate opens the pool heals.",
+    "C11": " The goroutine that swaps the client connection's dial map is late by one millisecond of virtual time (what it started "
+           "before asking for the lock runs first); on paths with only add and rpc actions the first call must be served.",
+    "C20": " Third part (TestVerifC20Opens): coinciding stream opens on the real routing handlers under the scheduler with the "
+           "writes of the shard manager's maps as windows with a scheduling point inside (rule mapwrite: two goroutines inside a "
+           "write of the same map is what the runtime kills the process for); a stream reopened with the ids of a live stream "
+           "must be served to the end.",
+}
 for _k, _v in EXTRA.items():
     CLAIMED[_k]["text"] += _v
 for _k, _v in EXTRA5.items():
     CLAIMED[_k]["text"] += _v
 for _k, _v in EXTRA6.items():
+    CLAIMED[_k]["text"] += _v
+for _k, _v in EXTRA7.items():
     CLAIMED[_k]["text"] += _v
 
 
